@@ -1101,6 +1101,7 @@ func runC01(c *vf.Ctx) {
 	})
 	c01DirectSig(c)
 	c01RunHist(c, "C01", func(int) bool { return true })
+	c01RunSpell(c)
 	c.Set("wall_generate_s", time.Since(t0).Seconds())
 }
 
